@@ -86,5 +86,5 @@ Definition spec_c11 (isf : bool) (es : list event) : bool :=
       then forallb (fun g => if is_get (c_call g) then gauge_read_ok isf cs g else true) cs else true)
   && (if Nat.leb (length cs) search_limit11 then
         (if isf then lin_search f64 gauge_step_float same_float (Datatypes.S (length cs)) cs 0%float
-         else lin_search N gauge_step_int N.eqb (Datatypes.S (length cs)) cs 0%N)
+         else lin_search N gauge_step_int same_int (Datatypes.S (length cs)) cs 0%N)
       else true).
